@@ -341,11 +341,30 @@ def run(ctx):
         if mism:
             i = sorted(mism, key=lambda j: len(cases[j]["ops"]))[0]
             ri, code = mism[i]
-            verdict.add("correspondence-broken",
-                        "an operation's effect differs from the effect of the request it denotes on %d sequences (operation %d of the smallest: %s, code %d = %s)"
-                        % (len(mism), ri, json.dumps(cases[i]["ops"][ri])[:200], code, {1: "error surfaced / not surfaced", 3: "server state"}.get(code)),
-                        {"kind": "correspondence", "ops": cases[i]["ops"][:ri + 1], "env": cases[i]["env"], "observed": results[i][:ri + 1]},
-                        has_input=False)
+            # confirm on the implementation alone: send the raw requests the operations denote to a fresh server and compare its state
+            # after request ri with the state the client / CLI path left behind
+            confirmed = None
+            try:
+                raws = resolve_raws(cases[i], results[i])[:ri + 1]
+                if all(r is not None for r in raws):
+                    direct = A.run_impl(ctx, [{"reqs": raws, "env": cases[i]["env"], "group": cases[i].get("group", 0)}], "c19_direct")[0]
+                    if isinstance(direct, list) and len(direct) == len(raws):
+                        via_http = A.canon_payload(direct[-1]["proxies"])
+                        via_client = A.canon_payload(results[i][ri]["proxies"])
+                        if via_http != via_client:
+                            confirmed = {"server_state_after_the_http_requests": direct[-1]["proxies"], "server_state_after_the_operations": results[i][ri]["proxies"]}
+            except Exception as e:                      # the confirmation is best effort; without it the finding stays a broken correspondence
+                ctx.notes.append("direct confirmation failed: %r" % (e,))
+            what = ("an operation's effect differs from the effect of the request it denotes on %d sequences (operation %d of the smallest: %s, code %d = %s)"
+                    % (len(mism), ri, json.dumps(cases[i]["ops"][ri])[:200], code, {1: "error surfaced / not surfaced", 3: "server state"}.get(code)))
+            if confirmed:
+                verdict.add("differs-from-request", what + "; confirmed by sending the denoted HTTP requests to a fresh server: the states differ",
+                            {"kind": "failing-input", "differential": True, "ops": cases[i]["ops"][:ri + 1], "raws": raws, "env": cases[i]["env"],
+                             "group": cases[i].get("group", 0), "observed": results[i][:ri + 1], **confirmed})
+            else:
+                verdict.add("correspondence-broken", what,
+                            {"kind": "correspondence", "ops": cases[i]["ops"][:ri + 1], "env": cases[i]["env"], "observed": results[i][:ri + 1]},
+                            has_input=False)
     rc, nviol = verdict.finish()
     mid = cases[len(cases) // 2]
     cov = {
@@ -371,6 +390,18 @@ def replay(ctx, path):
     if rp.get("kind") != "failing-input":
         print("replay file names a broken obligation:", rp.get("what"))
         return 1
+    if rp.get("differential"):
+        c = {"ops": rp["ops"], "raws": rp["raws"], "env": rp["env"], "group": rp.get("group", 0)}
+        r = run_impl(ctx, [c])[0]
+        d = A.run_impl(ctx, [{"reqs": rp["raws"], "env": rp["env"], "group": rp.get("group", 0)}], "c19_direct")[0]
+        a, b = A.canon_payload(r[-1]["proxies"]), A.canon_payload(d[-1]["proxies"])
+        print("after the operations:    ", r[-1]["proxies"][:600])
+        print("after the HTTP requests: ", d[-1]["proxies"][:600])
+        if a != b:
+            print("VIOLATION property=%s replay=%s" % (PID, path))
+            return 1
+        print("replay passes on the current tree")
+        return 0
     c = {"ops": rp["ops"], "raws": [None] * len(rp["ops"]), "env": rp["env"], "group": 0}
     r = run_impl(ctx, [c])[0]
     w = oracle(c, r)
